@@ -51,6 +51,7 @@ type c18ConnSched struct {
 	Labels []string `json:"labels"`
 	Torn   bool     `json:"torn"`
 	Hb     bool     `json:"hb,omitempty"` // writer 1 is the heartbeat goroutine (first tick after 4 s) instead of the handler
+	Pong   bool     `json:"pong,omitempty"` // writer 1 is wsutil's reply to a client ping, written while the handler reads
 }
 
 type c18Job struct {
@@ -529,7 +530,140 @@ func c18Forced(s *c18Sched) map[string]interface{} {
 // connection-write schedules: writer 0 = the Listen of subscription "1" (a data frame),
 // writer 1 = the handler (the ack of a second connection_init)
 
+// c18Pong: a data frame of Listen is held between its header and its payload write; the client
+// pings; the reply (one Write of wsutil's control handler on the connection the handler reads from)
+// either waits for the write lock (whole frames) or lands inside the data frame. The payload is
+// released once the pong has been written or after 150 ms, whichever comes first.
+func c18Pong(s *c18ConnSched) map[string]interface{} {
+	res := map[string]interface{}{"kind": "conn"}
+	fail := func(kind, detail string) map[string]interface{} {
+		res["fail"] = kind
+		res["detail"] = detail
+		return res
+	}
+	ctl := fed.NewHookCtl()
+	rig, err := c18NewRig(ctl)
+	if err != nil {
+		return fail("harness", err.Error())
+	}
+	defer rig.close()
+	var mu sync.Mutex
+	armed, held := false, false
+	var holder uint64
+	hdrWritten := make(chan struct{})
+	pongDone := make(chan struct{})
+	var wlog []string
+	rig.gs.Conn.BeforeWrite = func(gid uint64, p []byte) error {
+		mu.Lock()
+		if !armed || len(p) == 0 {
+			mu.Unlock()
+			return nil
+		}
+		switch {
+		case p[0] == 0x8A:
+			wlog = append(wlog, "pong")
+		case holder == 0 && p[0] == 0x81 && len(p) <= 10:
+			holder = gid
+			wlog = append(wlog, "hdr:data")
+		case holder == gid && !held:
+			held = true
+			mu.Unlock()
+			close(hdrWritten)
+			select {
+			case <-pongDone:
+			case <-time.After(150 * time.Millisecond):
+			}
+			mu.Lock()
+			wlog = append(wlog, "pay:data")
+		}
+		mu.Unlock()
+		return nil
+	}
+	rig.gs.Conn.AfterWrite = func(gid uint64, p []byte) {
+		mu.Lock()
+		defer mu.Unlock()
+		if armed && len(p) > 0 && p[0] == 0x8A {
+			select {
+			case <-pongDone:
+			default:
+				close(pongDone)
+			}
+		}
+	}
+	client, err := fed.DialWS(rig.gs.WSURL())
+	if err != nil {
+		return fail("harness", err.Error())
+	}
+	defer client.Abort()
+	const T = 3 * time.Second
+	client.Init()
+	client.Start("1", "subscription { tick }", nil, nil)
+	sub, err := rig.ups.NextSub(T)
+	if err != nil {
+		return fail("harness", err.Error())
+	}
+	if f, err := client.ReadFrame(T); err != nil || f.Op != 1 {
+		return fail("harness", fmt.Sprint("no ack: ", err))
+	}
+	mu.Lock()
+	armed = true
+	mu.Unlock()
+	sub.SendData(map[string]interface{}{"tick": 7}, nil)
+	select {
+	case <-hdrWritten:
+	case <-time.After(T):
+		return fail("harness", "the data frame's header write was not seen (is a frame still two writes?)")
+	}
+	client.SendPing([]byte("p"))
+	torn := ""
+	gotText, gotPong := false, false
+	for !(gotText && gotPong) {
+		f, err := client.ReadFrame(600 * time.Millisecond)
+		if err != nil {
+			if strings.Contains(err.Error(), "malformed") {
+				torn = err.Error()
+			} else if !gotText {
+				torn = "the client could not read the data frame whole: " + err.Error()
+			}
+			break // no pong at all is not a torn frame
+		}
+		switch f.Op {
+		case 1:
+			m, err := fed.CheckTextFrame(f)
+			if err != nil {
+				torn = err.Error()
+			} else if m.Type == "data" {
+				gotText = true
+			}
+		case 0xA:
+			if string(f.Payload) != "p" {
+				torn = fmt.Sprintf("pong with a payload no ping carried: %q", f.Payload)
+			}
+			gotPong = true
+		default:
+			torn = fmt.Sprintf("unexpected frame opcode %d (%d bytes)", f.Op, len(f.Payload))
+		}
+		if torn != "" {
+			break
+		}
+	}
+	mu.Lock()
+	armed = false
+	res["write_log"] = append([]string(nil), wlog...)
+	mu.Unlock()
+	res["pong_seen"] = gotPong
+	res["client_sees_torn"] = torn != ""
+	if torn != "" {
+		return fail("torn", torn)
+	}
+	res["ok"] = true
+	return res
+}
+
 func c18Conn(s *c18ConnSched) map[string]interface{} {
+	if s.Pong {
+		return c18Pong(s)
+	}
 	res := map[string]interface{}{"kind": "conn"}
 	fail := func(kind, detail string) map[string]interface{} {
 		res["fail"] = kind
